@@ -8,7 +8,7 @@ from vlib import engine, gen, kal
 ID = "C08"
 RULE = ("One generated string (nucleotide ACGTU / +N / full IUPAC / all-N, protein 20 aa / +BZX / all-X, homopolymers, "
         "either case; length 1..800 quick, 1..5000 thorough; short strings drawn letter by letter) x 2..500 copies x a type "
-        "admissible for the kind kalign itself reports for the string x threads 1..16 x entry point (kalign() / file API; the file in a drawn layout: wrapped at 1/7/60/80 or not, LF or CRLF, with or without a final line terminator, 0/1/6 leading blank lines). "
+        "admissible for the kind kalign itself reports for the string x threads 1..16 x entry point (kalign() / file API; the file in a drawn layout: wrapped at 1/7/60/80 or not, LF or CRLF, with or without a final line terminator, 0/1/6 leading blank lines, optionally one header line of 127..70000 characters). "
         "Oracle: every row equals the string and the length is unchanged. Non-trivial = copies>=3 or length>=2; distinct "
         "by hash of the case.")
 ASSUMPTIONS = ["gap penalties are the type's defaults: the property quantifies over alignment types, not over user penalties (with gap open 0, X:X scoring <= 0 makes the gap-free alignment non-optimal)",
@@ -40,7 +40,10 @@ def cases(draw, tier):
         copies = max(2, (250000 if tier == "quick" else 1500000) // len(s))
     return {"s": s, "copies": copies, "type_pick": draw(st.integers(0, 3)), "threads": draw(gen.threads),
 "entry": draw(st.sampled_from(["arr", "file"])),
-            "layout": draw(gen.layouts)}
+            "layout": draw(gen.layouts),
+            # file entry: one record may carry a very long header line (database-style descriptions; the line buffers of a
+            # reader are 128 / 256 / 4096 / 65536 bytes in many programs)
+            "header": draw(st.sampled_from([None] * 6 + [[0, 127], [1, 4095], [1, 4096], [0, 4118], [1, 8193], [0, 65536], [1, 70000]]))}
 
 
 def strategy(tier):
@@ -58,7 +61,12 @@ def check(case):
         if case["entry"] == "arr":
             r = kal.align_arr(seqs, cfg)
         else:
-            r = kal.align_named(["s%d" % i for i in range(k)], seqs, cfg, layout=case.get("layout"))
+            nm = ["s%d" % i for i in range(k)]
+            if case.get("header"):
+                hi, hl = case["header"]
+                hi = hi % k
+                nm[hi] = (nm[hi] + " Escherichia coli K-12 " + "hypotheticalproteinMKV " * (hl // 23 + 1))[:hl]
+            r = kal.align_named(nm, seqs, cfg, layout=case.get("layout"))
     except kal.Failure as f:
         if f.ended.kind == "hang":
             return engine.discard("cpu-limit (inconclusive; hangs are judged by C05)")
@@ -66,6 +74,8 @@ def check(case):
     except kal.Rejected as e:
         return engine.violation({"what": "identical sequences rejected: %s" % e.what, "info": e.info}, kind="status")
     cl = ["entry=" + case["entry"], "biotype=%d" % bt, "type=%d" % t]
+    if case.get("header") and case["entry"] != "arr":
+        cl.append("long_header")
     if k >= 100:
         cl.append("copies>=100")
     if len(s) >= 500:
@@ -106,6 +116,13 @@ def extra(tier, seed, stats):
         s = "".join(rnd.choice(alpha) for _ in range(5 + n % 40))
         cases_.append({"s": s, "copies": n, "type_pick": n % 4, "threads": 1 + n % 4, "entry": "arr" if n % 2 else "file",
                        "layout": {"width": 0, "eol": "\n", "final_eol": n % 4 != 0}})
+    # header line lengths, enumerated on and next to the usual line-buffer sizes
+    for hi, hl in enumerate([100, 127, 128, 129, 255, 256, 257, 511, 512, 513, 1023, 1024, 1025, 4094, 4095, 4096, 4097, 4118, 8191, 8192, 8193,
+                             65534, 65535, 65536, 65537, 100000]):
+        rnd = random.Random(seed * 7 + hl)
+        alpha = gen.AA if hi % 2 else gen.NUC
+        cases_.append({"s": "".join(rnd.choice(alpha) for _ in range(40 + hi)), "copies": 3 + hi % 3, "type_pick": hi % 4, "threads": 1, "entry": "file",
+                       "layout": {"width": [0, 60][hi % 2], "eol": "\n", "final_eol": True}, "header": [hi, hl]})
     # residue composition, enumerated: for every letter of the nucleotide / protein alphabets (ambiguity codes and wildcards
     # included) a homopolymer and an ordinary sequence carrying a run of that letter, under every type admissible for it
     for kind_alpha, letters in ((gen.NUC, "ACGTUNRYSWKMBDHV"), (gen.AA, gen.AA + "BZXU")):
